@@ -273,6 +273,7 @@ func (c *Client) director() (address string, t *target, err error) {
 		}
 		c.lock.Unlock()
 	}
+	verifPoint("client.beforeWait")
 	done := c.donePool.Get().(chan *waiter)
 	w := c.waiterPool.Get().(*waiter)
 	w.Done = done
